@@ -23,6 +23,12 @@ from .base import Exact, is_sym
 
 CLASSES = {c.__name__: c for c in (E.P, E.C, E.G, E.L, E.X, E.R)}
 
+
+def env_EventBus():
+    from . import env
+    return env.EventBus
+
+
 EXC = {'ValueError': ValueError, 'KeyError': KeyError, 'TimeoutError': TimeoutError, 'Custom': type('CustomError', (Exception,), {})}
 
 
@@ -39,13 +45,15 @@ def build(ctx):
     ctx.new_loop(horizon=cfg.get('horizon', 6))
     par = set(cfg.get('parallel', []))
     hist = cfg.get('max_history', {})
+    plain = set(cfg.get('plain_buses', []))
     for b in cfg['buses']:
         kw = {}
         if b in par:
             kw['parallel_handlers'] = True
         if b in hist:
             kw['max_history_size'] = hist[b]
-        ctx.bus(b, **kw)
+        # a plain bubus.EventBus next to the recording subclass (dispatches to it are recorded by the callers' wrappers)
+        ctx.bus(b, cls=env_EventBus() if b in plain else None, **kw)
     ctx.exc_objects = {}
     ctx.bus_reads = []
     ctx.returned = {}
@@ -124,7 +132,7 @@ def _read_bus(ctx, inv, ev):
         nm = getattr(b, '_vfw_name', getattr(b, 'name', None))
     except Exception as ex:  # noqa
         nm = 'raise:' + type(ex).__name__
-    ctx.rec('BUSREAD', h=inv.id, bus=inv.bus._vfw_name if inv.bus else None, got=nm)
+    ctx.rec('BUSREAD', h=inv.id, bus=inv.bus._vfw_name if inv.bus else None, got=nm, path=list(ev.event_path))
 
 
 def _label(ctx, inv, label):
@@ -167,6 +175,14 @@ async def _run_script(ctx, inv, ev, script):
             ex = EXC[st[1]](f'{inv.id}')
             ctx.exc_objects[inv.id] = ex
             raise ex
+        elif op == 'raise_chained':
+            # an exception with a __cause__ and a __context__ (raise ... from ... inside an except block)
+            try:
+                raise KeyError('inner')
+            except KeyError as inner:
+                ex = EXC[st[1]](f'{inv.id}')
+                ctx.exc_objects[inv.id] = ex
+                raise ex from inner
         elif op == 'ret':
             ctx.returned[inv.id] = st[1]
             return st[1]
